@@ -107,12 +107,16 @@ def sample_word(rnd, t):
     return rnd.getrandbits(rnd.randint(1, bits)) & m
 
 
-def gen_env(rnd, nmsgs=None, big=False, oneof_defaults=False):
+def gen_env(rnd, nmsgs=None, big=False, oneof_defaults=False, wide=False):
+    """wide: message 0 is proto2 with more than 128 fields (the parser's required-fields bitmap leaves the stack)"""
     nmsgs = nmsgs or rnd.randint(1, 4)
     msgs = []
     for idx in range(nmsgs):
         proto3 = rnd.random() < 0.4
         nf = rnd.choice([0, 1, 2, 3, 5, 8, 12]) if not big else rnd.choice([17, 40, 130, 200])
+        if wide and idx == 0:
+            proto3 = False
+            nf = rnd.choice([130, 160, 200])
         ids = gen_ids(rnd, nf, dense=big or rnd.random() < 0.4)
         n_oneofs = 0
         fields = []
@@ -478,9 +482,13 @@ def lenpref(n, rnd=None, pad=False):
 
 class Opts:
     """how non-canonical the encoding may be"""
-    def __init__(self, rnd=None, shuffle=False, pad=False, repack=False, split=False, stale=False, unknown=False, drop=None, split_ok=None):
+    def __init__(self, rnd=None, shuffle=False, pad=False, repack=False, split=False, stale=False, unknown=False, drop=None, split_ok=None,
+                 lead_unknown=False, bad_later=False):
         self.rnd = rnd; self.shuffle = shuffle; self.pad = pad; self.repack = repack
         self.split = split; self.stale = stale; self.unknown = unknown
+        self.lead_unknown = lead_unknown   # every message starts with an unknown field (the scan has resolved no field yet)
+        self.bad_later = bad_later         # once: a singular message field that is present gets one more occurrence whose payload is rejected
+        self.bad_done = False
         self.drop = drop          # (message type index, field id): leave that field out of every message of that type
         self.split_ok = split_ok  # predicate on a MsgDesc: may an embedded message of that type be split over several occurrences
 
@@ -503,7 +511,7 @@ def cell_payload(env, f, c, o):
         else:
             b = c[2][1][:c[1]]
         return lenpref(len(b), rnd, o.pad and rnd.random() < 0.3) + list(b)
-    sub = encode(env, c[1], o) if c[1] is not None else []
+    sub = encode(env, c[1], o, top=False) if c[1] is not None else []
     return lenpref(len(sub), rnd, o.pad and rnd.random() < 0.3) + sub
 
 
@@ -628,7 +636,7 @@ def msg_records(env, m, o):
     return out
 
 
-def encode(env, m, o):
+def encode(env, m, o, top=True):
     recs = msg_records(env, m, o)
     rnd = o.rnd
     if o.shuffle and rnd is not None and len(recs) > 1:
@@ -662,6 +670,16 @@ def encode(env, m, o):
         desc = env.msgs[m.d]
         for tag, wt, data in gen_unknown(rnd, desc, rnd.randint(1, 3)):
             recs2.insert(rnd.randint(0, len(recs2)), key(tag, wt) + list(data))
+    if o.lead_unknown and rnd is not None:
+        for tag, wt, data in gen_unknown(rnd, env.msgs[m.d], 1):
+            recs2.insert(0, key(tag, wt) + list(data))
+    if o.bad_later and not o.bad_done and rnd is not None:
+        desc = env.msgs[m.d]
+        cands = sorted(set(fid for fid, _ in recs if fid > 0 and desc.by_id[fid].type == 'MESSAGE' and desc.by_id[fid].label != 'REP'))
+        if cands and (top or rnd.random() < 0.5):
+            o.bad_done = True
+            # a truncated key: the nested parse fails after the earlier occurrence was parsed and stored
+            recs2.append(key(rnd.choice(cands), 2) + rnd.choice([[1, 0x80], [2, 0x08, 0x80], [1, 0x07]]))
     return [b for r in recs2 for b in r]
 
 
